@@ -348,6 +348,26 @@ func cmdCheck(args []string) {
 			}
 		}
 	}
+	// B1 vacuity: every guarded_by / frozen rule must be exercised by at least one access somewhere (else the rule no longer binds to the code)
+	if prop == "C19" {
+		hits := map[string]bool{}
+		for _, fr := range results {
+			if fr.VC != nil {
+				for k := range fr.VC.guardHits {
+					hits[k] = true
+				}
+			}
+		}
+		probe := &VC{cs: env.cs}
+		for _, r := range probe.guardRules() {
+			if r.lock == "frozen" {
+				continue // frozen fields are legitimately never written outside constructors
+			}
+			if !hits[r.root+"."+r.field] {
+				violations = append(violations, violation{Obligation: "guard-rule:" + r.root + "." + r.field, Reason: "no access to this guarded field was found in any function: the guarded_by rule no longer binds to the code", NoInput: true})
+			}
+		}
+	}
 	// lock file
 	lock := loadLock()
 	missing := 0
@@ -593,7 +613,21 @@ func cmdCheck(args []string) {
 	os.WriteFile(filepath.Join(evDir, prop+".json"), data, 0o644)
 
 	if writeLock {
-		lock[prop] = order
+		// Only contract-derived obligations are pinned: their names come from clause labels, so a harmless edit of the code does not rename
+		// them, and their absence means a contract clause silently stopped binding (anchor not found, loop gone, clause skipped).
+		// Code-derived safety obligations (nil/bounds/ovf/div/chan/frame/pre/guard: numbered by instruction) are checked whenever
+		// they are generated but never required to exist.
+		var pinned []string
+		for _, n := range order {
+			switch byName[n].Kind {
+			case "post", "assert", "inv-init", "inv-keep", "dec", "lemma", "unreach", "pool":
+				if !strings.Contains(n, "@in:") && !strings.Contains(n, ".frame.") {
+					pinned = append(pinned, n)
+				}
+			}
+		}
+		lock[prop] = pinned
+		order = pinned
 		ld, _ := json.MarshalIndent(lock, "", " ")
 		os.WriteFile(filepath.Join(verifDir(), "obligations.lock"), ld, 0o644)
 	}
